@@ -112,9 +112,16 @@ namespace WireR
 
 def segAt (r : WireR) (i : Nat) : Bytes := r.wire.getD i []
 
+/-- the `for r.seg < len(r.wire) && r.pos >= len(r.wire[r.seg]) { r.seg++; r.pos = 0 }` of `nextSeg` -/
+def nextSegLoop : Nat → WireR → WireR
+  | 0, r => r
+  | fuel + 1, r =>
+    if r.seg < r.wire.length ∧ r.pos ≥ (r.segAt r.seg).length then nextSegLoop fuel { r with seg := r.seg + 1, pos := 0 }
+    else r
+
 /-- `nextSeg()` -/
 def nextSeg (r : WireR) : WireR × Bool :=
-  let r' := if r.seg < r.wire.length ∧ r.pos ≥ (r.segAt r.seg).length then { r with seg := r.seg + 1, pos := 0 } else r
+  let r' := nextSegLoop (r.wire.length + 1) r
   (r', r'.seg < r'.wire.length)
 
 /-- `Pos()` (absolute) -/
@@ -145,12 +152,15 @@ def gather : Nat → WireR → Nat → Bytes → Option (Bytes × WireR)
 def readWire (r : WireR) (l : Nat) : Res (Bytes × WireR) :=
   let (r, ok) := r.nextSeg
   if !ok ∧ l > 0 then .err
+  else if l > r.absLength - r.absPos then .err
   else match gather (r.wire.length + 1) r l [] with
     | some x => .ok x
     | none => .err
 
-/-- `ReadBuf(l)` (after the repair: `l == 0` at the end of the wire gives an empty buffer) -/
+/-- `ReadBuf(l)` (after the repairs: length guard first; `l == 0` at the end of the wire gives an
+    empty buffer) -/
 def readBuf (r : WireR) (l : Nat) : Res (Bytes × WireR) :=
+  if l > r.absLength - r.absPos then .err else
   let (r, ok) := r.nextSeg
   if !ok then (if l > 0 then .err else .ok ([], r))
   else
@@ -170,18 +180,29 @@ def readFull (r : WireR) (l : Nat) : Res (Bytes × WireR) :=
       | some x => .ok x
       | none => .err
 
-/-- the `for r.pos > len(r.wire[r.seg])` loop of `Skip` and `Delegate` -/
+/-- the `for r.pos > len(r.wire[r.seg])` loop of `Delegate` (unguarded index) -/
 def advance : Nat → WireR → Res WireR
   | 0, _ => .err
   | fuel + 1, r =>
-    if r.seg ≥ r.wire.length then .panic "index out of range (WireReader.Skip)"
+    if r.seg ≥ r.wire.length then .panic "index out of range (WireReader.Delegate)"
     else if r.pos > (r.segAt r.seg).length then
       let r' := { r with pos := r.pos - (r.segAt r.seg).length, seg := r.seg + 1 }
       if r'.seg ≥ r'.wire.length then .err else advance fuel r'
     else .ok r
 
+/-- the `for r.seg < len(r.wire) && r.pos > len(r.wire[r.seg])` loop of `Skip` -/
+def skipLoop : Nat → WireR → Res WireR
+  | 0, _ => .err
+  | fuel + 1, r =>
+    if r.seg < r.wire.length ∧ r.pos > (r.segAt r.seg).length then
+      let r' := { r with pos := r.pos - (r.segAt r.seg).length, seg := r.seg + 1 }
+      if r'.seg ≥ r'.wire.length then .err else skipLoop fuel r'
+    else .ok r
+
 /-- `Skip(n)` -/
-def skip (r : WireR) (n : Nat) : Res WireR := advance (r.wire.length + 1) { r with pos := r.pos + n }
+def skip (r : WireR) (n : Nat) : Res WireR :=
+  if n > r.absLength - r.absPos then .err
+  else skipLoop (r.wire.length + 1) { r with pos := r.pos + n }
 
 /-- the scan of `Range` for the start: the last `i` with `accSz[i] ≤ start < accSz[i+1]` -/
 def findStart (w : List Bytes) (start : Nat) : Nat × Nat :=
@@ -216,7 +237,7 @@ namespace WireR
 
 /-- `Delegate(l)` -/
 def delegate (r : WireR) (l : Nat) : Res (Rd × WireR) :=
-  if r.seg ≥ r.wire.length then .ok (.buf ⟨[], 0⟩, r)
+  if r.seg ≥ r.wire.length ∨ l > r.absLength - r.absPos then .ok (.buf ⟨[], 0⟩, r)
   else
     let s := r.segAt r.seg
     if r.pos + l ≤ s.length then
